@@ -3,16 +3,17 @@ from props.common import run_all as run  # noqa: F401
 META = {'claimed': True,
  'title': 'HTTP client decodes every well-formed response exactly; request sent verbatim',
  'level_text': 'proof: on the same model of http/http.c as C08 (constants regenerated; netbuf reader window; models of sscanf("HTTP/%d.%d %d "), strtoumax and PARSENUM_EX), for EVERY well-formed '
-               'response (wf_response: any status line and header list with OWS, framing headers canonical, body by Content-Length / chunked with any chunk sizes and extensions / connection close, '
-               'any number of 1xx interim responses, bodiless for HEAD/204/304), every limit >= |body| below 2^64, every initial reader geometry and EVERY segmentation of the bytes (empty segments = '
-               'EAGAIN rounds) the run returns exactly one callback carrying exactly that status, exactly those (name, value) pairs in order with OWS trimmed, and exactly that body '
-               "(C09_decode_wellformed, with C09_expect_meaning); staged lemmas exported too: request bytes = method SP path ' HTTP/1.1' CRLF (h ': ' v CRLF)* CRLF body with the precomputed length "
-               'equal to the real one (C09_request_bytes), header-block round trip (C09_headers_roundtrip), Content-Length / chunked / close / bodiless round trips, segmentation independence '
-               '(C09_segmentation_independent), interim responses skipped (C09_interim_skipped), whole exchange (C09_exchange_exact). 11 theorems, unbounded in header count, chunk count/size, '
-               "interim count and segmentation; wf_response carries the code's two size limits (header block <= 65537 bytes, chunk-size line <= 256 bytes). KNOWN FINDING F12 (listed): beyond those "
-               'limits the outcome depends on the segmentation (decoded one-shot, NULL in pieces); refuted-form theorem with witness, probed on the implementation on every run. Bound to the C by the '
-               'correspondence run: responses rendered by the extracted SPEC x segmentations and buffer-boundary positions run on the real http.c + netbuf + network + events (scripted kernel, ASan); '
-               'callback must equal the extracted expectation and the bytes given to send() must equal the documented request layout; implementation = model on every case.',
+               'response (wf_response: any status line and header list with OWS, framing headers canonical (the Content-Length value may be any 1*DIGIT spelling of the body length, leading zeros '
+               'included: HttpSpec.wf_clen), body by Content-Length / chunked with any chunk sizes and extensions / connection close, any number of 1xx interim responses, bodiless for HEAD/204/304), '
+               'every limit >= |body| below 2^64, every initial reader geometry and EVERY segmentation of the bytes (empty segments = EAGAIN rounds) the run returns exactly one callback carrying '
+               'exactly that status, exactly those (name, value) pairs in order with OWS trimmed, and exactly that body (C09_decode_wellformed, with C09_expect_meaning); staged lemmas exported too: '
+               "request bytes = method SP path ' HTTP/1.1' CRLF (h ': ' v CRLF)* CRLF body with the precomputed length equal to the real one (C09_request_bytes), header-block round trip "
+               '(C09_headers_roundtrip), Content-Length / chunked / close / bodiless round trips, segmentation independence (C09_segmentation_independent), interim responses skipped '
+               "(C09_interim_skipped), whole exchange (C09_exchange_exact). 11 theorems, unbounded in header count, chunk count/size, interim count and segmentation; wf_response carries the code's "
+               'two size limits (header block <= 65537 bytes, chunk-size line <= 256 bytes). KNOWN FINDING F12 (listed): beyond those limits the outcome depends on the segmentation (decoded '
+               'one-shot, NULL in pieces); refuted-form theorem with witness, probed on the implementation on every run. Bound to the C by the correspondence run: responses rendered by the extracted '
+               'SPEC x segmentations and buffer-boundary positions run on the real http.c + netbuf + network + events (scripted kernel, ASan); callback must equal the extracted expectation and the '
+               'bytes given to send() must equal the documented request layout; implementation = model on every case.',
  'level_note': 'Trusted: Coq kernel; hand-written model of http.c bound by differential execution; Gallina models of sscanf for the status-line format and of strtoumax per glibc 2.36 (DESIGN '
                'Appendix A); the reader-window abstraction of netbuf_read / network_read (C06/C07); translator x_http.py; the real send() segmentation of the request is observed, not modelled. Print '
                'Assumptions: closed under the global context.',
